@@ -9,7 +9,7 @@ import (
 
 func init() {
 	Register(&Scenario{Prop: "C15", Name: "load-limit", Run: scenC15, SoftParks: true, Weight: 1,
-		Rule: "node T persists a log of 1-9 (thorough 1-20) entries: single-writer chain, or several heads built from local writes plus entries replicated from 1-2 feeders under reorder; T is closed; then for EVERY limit n in {-3,-1,0,1,...,total+3}, given per call or through the MaxHistory option, the final durable image is reopened in isolation and Load(n) runs; oracle: n>0 => exactly min(n,total) entries visible, in an order consistent with the full listing, newest entry included, and for a single-writer log exactly the n most recent; n<=0 => everything; never a panic or an error on a short log; one evaluation = one persisted log with all its limits; non-trivial = total>=3 and at least one limit strictly inside (0,total) and one beyond total"})
+		Rule: "node T persists a log of 1-9 (thorough 1-20) entries: single-writer chain, or several heads built from local writes plus entries replicated from 1-2 feeders under reorder; T is closed; then for EVERY limit n in {-3,-1,0,1,...,total+3}, given per call or through the MaxHistory option, the final durable image is reopened in isolation and Load(n) runs; oracle: n>0 => exactly min(n,total) entries visible, in an order consistent with the full listing, newest entry included, and for a single-writer log exactly the n most recent; n<=0 => everything; never a panic or an error on a short log; in a third of the cases a second Load with another limit follows on the same store object (no panic, no error, still a part of the log in its order with the newest entry; how many entries a second load shows is not judged); one evaluation = one persisted log with all its limits; non-trivial = total>=3 and at least one limit strictly inside (0,total) and one beyond total"})
 }
 
 func scenC15(k *K) {
@@ -139,6 +139,31 @@ func c15Load(k *K, c *Cluster, T *Node, lim int, viaOption bool, full []string, 
 	}
 	if single && !EqStrs(got, full[total-len(got):]) {
 		k.Failf("C15/not-most-recent", "%s on a single-writer log lists positions %s, expected the %d most recent", how, positions(full, got), want)
+	}
+	// a second load on the same store object, with another limit: it must not fail either, and
+	// what is visible stays a part of the log, in its order, newest entry included
+	if k.C.Chance(1, 3) {
+		lim2 := []int{-1, 0, 1, lim + 1, lim + 3, total, total + 2, lim - 1}[k.C.Intn(8)]
+		how2 := fmt.Sprintf("%s then Load(%d) on the same store", how, lim2)
+		k.W.Stat("second-load-on-same-store")
+		lop2 := k.Do(rn.Idx, fmt.Sprintf("Load(%d) again", lim2), 200, func() (interface{}, error) {
+			ctx, cancel := OpCtx(2 * time.Minute)
+			defer cancel()
+			return nil, st.Load(ctx, lim2)
+		})
+		if !lop2.Done {
+			k.Failf("C15/hang", "%s on a %d-entry log did not return", how2, total)
+		}
+		if lop2.Err != nil {
+			k.Failf("C15/load-error", "%s on a %d-entry log failed: %v", how2, total, lop2.Err)
+		}
+		got2 := LogHashSeq(st)
+		if !isSubsequence(got2, full) {
+			k.Failf("C15/order", "%s lists entries out of log order: positions %s of the full listing", how2, positions(full, got2))
+		}
+		if len(got2) > 0 && got2[len(got2)-1] != full[total-1] {
+			k.Failf("C15/newest-missing", "%s does not include the newest entry: positions %s of %d", how2, positions(full, got2), total)
+		}
 	}
 	// the event-log view agrees with the log
 	if el, ok := st.(iface.EventLogStore); ok {
